@@ -507,7 +507,7 @@ func (p *Program) exec(t *rapid.T, s *Stmt, env []Val, r *Run) Val {
 		actions := map[string]func(*rapid.T){}
 		for i, a := range s.Acts {
 			i, a := i, a
-			actions[fmt.Sprintf("a%03d", i)] = func(t *rapid.T) {
+			actions[actionName(i, len(s.Acts))] = func(t *rapid.T) {
 				r.ev(fmt.Sprintf("(UAct %d)", i))
 				n0 := countDraws(r)
 				done := false
@@ -540,6 +540,17 @@ func (p *Program) exec(t *rapid.T, s *Stmt, env []Val, r *Run) Val {
 		return p.exec(t, s.Next, append(env[:len(env):len(env)], state), r)
 	}
 	panic("exec " + s.Op)
+}
+
+// actionName: names whose byte-wise sorted order is the index order (what Repeat documents), but which contain
+// pairs that differ only in letter case ("A".."a"): an ordering that is not total on such names shows up as
+// non-determinism
+func actionName(i, n int) string {
+	up := (n + 1) / 2
+	if i < up {
+		return fmt.Sprintf("ACT%c", 'A'+rune(i))
+	}
+	return fmt.Sprintf("act%c", 'a'+rune(i-up))
 }
 
 // recurse calls f below d directly recursive frames: the failure site then depends on d
